@@ -192,7 +192,7 @@ def canon_content(c: dict, mich) -> dict:
         o['destination'] = _addr(c['destination'])
         p = c.get('parameters')
         if p and not (p['entrypoint'] == 'default' and mich(p['value']).hex() == '030b'):
-            o['entrypoint'], o['value'] = p['entrypoint'], mich(p['value']).hex()
+            o['entrypoint'], o['value'] = p['entrypoint'].encode('utf-8').decode('latin-1'), mich(p['value']).hex()
         else:
             o['entrypoint'], o['value'] = None, None
     elif k == 'origination':
@@ -210,7 +210,7 @@ def canon_content(c: dict, mich) -> dict:
         o['ticket_ticketer'] = _addr(c['ticket_ticketer'])
         o['ticket_amount'] = int(c['ticket_amount'])
         o['destination'] = _addr(c['destination'])
-        o['entrypoint'] = c['entrypoint']
+        o['entrypoint'] = c['entrypoint'].encode('utf-8').decode('latin-1')
     elif k == 'smart_rollup_add_messages':
         o['message'] = list(c['message'])
     elif k == 'smart_rollup_execute_outbox_message':
